@@ -79,7 +79,7 @@ PROPS = {
              assumptions=["evaluation points interior to the domain by a margin (oracle) / InDomain (theorem)"],
              partial="rounding 'commensurate with conditioning' explored by oracles only; x**0 at x=0 under AD is NaN (outside 'interior of the domain')"),
     "C03": P(["tri"], tb=TRI_TB, assumptions=TRI_AS,
-             partial="the tiling clauses (inside, pairwise disjoint, area sum) are decided by the exact integer oracle on every explored input (exhaustive on the 4x4 lattice up to 6 vertices); the all-input theorems cover non-degeneracy, corners and the local geometry; for triangles, all simple quadrilaterals and all simple x-monotone n-gons with distinct abscissae the count, corners, non-degeneracy and exact total area of the output are theorems (C04Triangle, C04Quad, C04QuadV, C04Convex, C04Monotone); C03General.general_output_full: for EVERY valid polygon set with pairwise distinct abscissae (components, holes, islands to any depth, non-monotone polygons) the model returns, with the ghost flag true, exactly triCount triangles (n_i - 2 per polygon at even nesting depth, n_i + 2 at odd depth, the depth parity defined from the geometry by ray crossing), all non-degenerate, with corners among the input vertices, whose absolute areas add up to the even-odd area |sum (-1)^depth |shoelace_i|| ; C03Tiling.tiling adds the remaining clauses in general position: every point whose abscissa is not a vertex abscissa lies in exactly one triangle if it is in the even-odd region and in none otherwise (tiling_count), strict interiors of two different triangles are disjoint at EVERY point (triangles_disjoint), every triangle's interior lies in the region and the region is covered (membership by ray parity; on the finitely many vertical lines through vertices containment holds in the closure sense only); C03GeneralV.general_output_V extends count, non-degeneracy, corners and exact area to EVERY valid set with no hypothesis on the abscissae (vertical edges, lattice shapes; definitions lexicographic, independent of the shear); not proved: the containment/disjointness clauses for inputs with equal abscissae (decided by the exact oracle, exhaustively on the 4x4 lattice), and binary64 rounding"),
+             partial="the tiling clauses (inside, pairwise disjoint, area sum) are decided by the exact integer oracle on every explored input (exhaustive on the 4x4 lattice up to 6 vertices); the all-input theorems cover non-degeneracy, corners and the local geometry; for triangles, all simple quadrilaterals and all simple x-monotone n-gons with distinct abscissae the count, corners, non-degeneracy and exact total area of the output are theorems (C04Triangle, C04Quad, C04QuadV, C04Convex, C04Monotone); C03General.general_output_full: for EVERY valid polygon set with pairwise distinct abscissae (components, holes, islands to any depth, non-monotone polygons) the model returns, with the ghost flag true, exactly triCount triangles (n_i - 2 per polygon at even nesting depth, n_i + 2 at odd depth, the depth parity defined from the geometry by ray crossing), all non-degenerate, with corners among the input vertices, whose absolute areas add up to the even-odd area |sum (-1)^depth |shoelace_i|| ; C03Tiling.tiling adds the remaining clauses in general position: every point whose abscissa is not a vertex abscissa lies in exactly one triangle if it is in the even-odd region and in none otherwise (tiling_count), strict interiors of two different triangles are disjoint at EVERY point (triangles_disjoint), every triangle's interior lies in the region and the region is covered (membership by ray parity; on the finitely many vertical lines through vertices containment holds in the closure sense only); C03GeneralV.general_output_V extends count, non-degeneracy, corners and exact area to EVERY valid set with no hypothesis on the abscissae (vertical edges, lattice shapes; definitions lexicographic, independent of the shear); and C03TilingV.tiling_V gives the tiling clauses for EVERY valid set with no hypothesis on the abscissae (membership by a ray tilted slightly off the downward vertical, defined lexicographically; exceptional points: the vertices only): every non-vertex point lies in exactly one triangle if it is in the even-odd region and in none otherwise, interiors pairwise disjoint at all points, region covered - with this, all clauses of C03 are theorems about the model in exact arithmetic; what remains explored is binary64 rounding (bit-exact correspondence with the Float model, exact oracle on every explored input, exhaustive 4x4 enumeration)"),
     "C04": P(["tri"], tb=TRI_TB, assumptions=TRI_AS,
              partial="acceptance is a theorem for every non-degenerate triangle (C04Triangle.triangle_accepted_general, vertical edges included) and every simple quadrilateral with distinct abscissae (C04Quad.quad_accepted: convex, reflex Bend, improper Start, merging End; two triangles, exact area, ghost order flag true); C04Ties/C04Order justify the comparator's tie rules and the list model of the B-tree; C04QuadV.quad_accepted_general removes the distinct-abscissae hypothesis (vertical edges, aligned vertices); C04Convex.convex_accepted: every strictly convex x-monotone polygon with n >= 3 vertices and distinct abscissae, any start vertex and orientation, yields n-2 non-degenerate triangles with input corners and total area |shoelace|, ghost flag true (induction over the event queue); C04Monotone.monotone_accepted: the same for every simple x-monotone polygon with distinct abscissae, reflex vertices on both chains allowed (the back-chain grows and is cut in fans: polygon-independent fan lemma nt_fwd_fan / nt_bwd_fan); C04General.general_accepted is the general theorem in general position: EVERY valid polygon set all of whose vertex abscissae are pairwise distinct (any number of components, holes, islands in holes to any depth, non-monotone polygons with splitting Starts and merging Ends, either orientation, any start vertex, any polygon order) is accepted with the ghost order flag true - validity stated with orientation determinants (edges without a common vertex are apart, no spikes), proved via an invariant GInv over an arbitrary number of active edges/intervals preserved by every handler (ginv_bend, ginv_end, ginv_start) and a proof that validity excludes crossings of the left-to-right edges; and C04GeneralV.general_accepted_V removes the hypothesis on the abscissae altogether: EVERY valid polygon set (>= 3 vertices, pairwise distinct vertices, edges without a common vertex apart, no spikes; vertical edges and any number of vertices on one vertical line allowed - L, U, plus, rectangles with rectangular holes) is accepted with the ghost flag true (a shear x+eps*y with an explicit eps makes the order of abscissae the lexicographic order without changing any orientation determinant; bridging lemmas turn order facts of the sheared ring into the comparator's answers on the original points including every tie rule, and verticalIsCrossed provably never fires on valid input); this is property C04 for the model in exact arithmetic; what remains outside theorems is floating-point rounding (explored: bit-exact correspondence, exhaustive enumeration, exact affine images) and the known overflow findings"),
     "C15": P(["tri"], tb=TRI_TB, assumptions=TRI_AS,
@@ -208,8 +208,8 @@ NOT_APPLICABLE = {}
 
 # ---- second build round: the manifest texts of the properties whose theorem coverage grew
 LEVEL_TEXT["C03"].update({
-    "text": LEVEL_TEXT["C03"]["text"] + " Added: C03Tiling.tiling - in general position the output IS a tiling: each generic-abscissa point of the region lies in exactly one triangle, points outside in none, strict interiors pairwise disjoint everywhere; C03GeneralV.general_output_V - count, non-degeneracy, corners and exact even-odd area for every valid set incl. vertical edges and equal abscissae. C03General.general_output_full - for every valid polygon set in general position: triangle count, non-degeneracy, corners among the input vertices, and the sum of the absolute areas equals the even-odd area (invariant with per-interval back-chain shape, count and signed-area bookkeeping, preserved by all six event kinds). Added earlier: for triangles (all), simple quadrilaterals (all, incl. vertical edges), strictly convex and all simple x-monotone n-gons with distinct abscissae the number of triangles (n-2), corners = input vertices, non-degeneracy and exact total area |shoelace| of the model's output are theorems (C04Triangle, C04Quad, C04QuadV, C04Convex, C04Monotone; full path through set-up, event queue, all handlers, back-chain fans).",
-    "note": "Trusts: Lean kernel, heap/list models of Rc/BTreeSet/BTreeMap (ghost monitors + C04Order/C15Monitor theorems say when the list model stands for the B-tree and when no panic can occur), harness oracle. Containment and pairwise disjointness are theorems in general position (C03Tiling); for inputs with equal abscissae they are decided by the exact oracle (count/area are theorems there too, C03GeneralV).",
+    "text": LEVEL_TEXT["C03"]["text"] + " Added: C03TilingV.tiling_V - for EVERY valid polygon set (vertical edges and equal abscissae included) the model's output is a tiling of the even-odd region: each non-vertex point lies in exactly one triangle iff it is in the region, interiors pairwise disjoint, region covered. C03Tiling.tiling - in general position the output IS a tiling: each generic-abscissa point of the region lies in exactly one triangle, points outside in none, strict interiors pairwise disjoint everywhere; C03GeneralV.general_output_V - count, non-degeneracy, corners and exact even-odd area for every valid set incl. vertical edges and equal abscissae. C03General.general_output_full - for every valid polygon set in general position: triangle count, non-degeneracy, corners among the input vertices, and the sum of the absolute areas equals the even-odd area (invariant with per-interval back-chain shape, count and signed-area bookkeeping, preserved by all six event kinds). Added earlier: for triangles (all), simple quadrilaterals (all, incl. vertical edges), strictly convex and all simple x-monotone n-gons with distinct abscissae the number of triangles (n-2), corners = input vertices, non-degeneracy and exact total area |shoelace| of the model's output are theorems (C04Triangle, C04Quad, C04QuadV, C04Convex, C04Monotone; full path through set-up, event queue, all handlers, back-chain fans).",
+    "note": "Trusts: Lean kernel, heap/list models of Rc/BTreeSet/BTreeMap (ghost monitors + C04Order/C15Monitor theorems say when the list model stands for the B-tree and when no panic can occur), harness oracle. All clauses (count, corners, non-degeneracy, area, containment, disjointness, covering) are theorems about the model in exact arithmetic for every valid set (C03General, C03Tiling, C03GeneralV, C03TilingV); binary64 rounding is explored.",
     "technique": "Lean 4 full-path theorems (symbolic execution + induction over the event queue) on a heap-explicit sweep model + exhaustive small-lattice enumeration with exact oracle"})
 LEVEL_TEXT["C04"].update({
     "text": "C04GeneralV.general_accepted_V: EVERY valid polygon set (pairwise distinct vertices, edges apart, no spikes; vertical edges and equal abscissae allowed) is accepted by the sweep model in exact arithmetic with the ghost order flag true - property C04 for the model. C04General.general_accepted: the same for pairwise distinct vertex abscissae (components, holes, islands to any depth, non-monotone polygons) is accepted by the sweep model in exact arithmetic with the ghost order flag true (invariant over an arbitrary number of active edges, preserved by all handlers). Further acceptance theorems on the sweep model in exact arithmetic, full path (validation, set-up, event queue, Start/Bend/End handlers, back-chain split/merge/fans), each with the ghost order-consistency flag true: every non-degenerate triangle; every simple quadrilateral (convex, reflex Bend, improper Start, merging End; equal abscissae and vertical edges included); every strictly convex x-monotone n-gon and every simple x-monotone n-gon with distinct abscissae (n arbitrary: induction over the event queue, polygon-independent fan lemma). C04Ties: the comparator's tie rules (incl. the one added by repair 745c06b) agree with the geometric order; C04Order: while the ghost flag holds, any comparison-based search tree returns what the model's list scan returns. Outside these classes: exhaustive enumeration of all 17.9M vertex sequences up to 6 vertices on the 4x4 lattice, structured families with holes/islands under symmetries, stacked bands (up to 20 active edges), exact affine images (aspect ratios to 2^1000), mixed-scale pairs, 40 000-vertex polygons; the model at Float and XQ reproduces every Ok/Err.",
